@@ -895,7 +895,7 @@ func (s *sim) runStream(file bool) {
 		kind = s.src.Weighted(weights)
 		switch kind {
 		case 1:
-			pos = s.drawBit(total, true)
+			pos = s.drawBit(total, true, nil)
 		case 2:
 			pos = s.drawCut(total, true)
 		}
